@@ -348,12 +348,13 @@ def match_arms_fn(text, features):
     b = b[:mt[0].start()] + "Err(no_arm_matched_error())" + b[e:]
     mh = re.search(HDR, b)
     GH = "proof { lemma_first_hit(match_expr.arms@, detached_source, base_env, arm_ix as int); lemma_first_hit(match_expr.arms@, detached_source, base_env, arm_ix + 1); }"
+    DEC = "        decreases match_expr.arms@.len() - w_,\n"
     if mh.group(1):
-        hdr = ("for r_ in 0..match_expr.arms.len()\n" + MATCH_INV.replace("IX", "(match_expr.arms.len() - r_)").replace("CNT", "r_")
-               + "    { let arm_ix = match_expr.arms.len() - 1 - r_; let arm = &match_expr.arms[arm_ix];\n        " + GH)
+        hdr = ("let mut w_: usize = 0;\n    while w_ < match_expr.arms.len()\n" + MATCH_INV.replace("IX", "(match_expr.arms.len() - w_)").replace("CNT", "w_") + "        w_ <= match_expr.arms@.len(),\n" + DEC
+               + "    { let arm_ix = match_expr.arms.len() - 1 - w_; w_ += 1; let arm = &match_expr.arms[arm_ix];\n        " + GH)
     else:
-        hdr = ("for arm_ix in 0..match_expr.arms.len()\n" + MATCH_INV.replace("IX", "arm_ix").replace("CNT", "arm_ix")
-               + "    { let arm = &match_expr.arms[arm_ix];\n        " + GH)
+        hdr = ("let mut w_: usize = 0;\n    while w_ < match_expr.arms.len()\n" + MATCH_INV.replace("IX", "w_").replace("CNT", "w_") + "        w_ <= match_expr.arms@.len(),\n" + DEC
+               + "    { let arm_ix = w_; w_ += 1; let arm = &match_expr.arms[arm_ix];\n        " + GH)
     b = b[:mh.start()] + hdr + b[mh.end():]
     if re.search(r"\b(MechError|value_contains_empty|is_identity_option_matrix_arm|cfg|crate)\b", b):
         raise AnchorLost("match_expression: the arm loop is outside the transcription rules")
